@@ -282,8 +282,12 @@ func (x *Ctx) hintRules(r *core.Result, rs *core.RuleStat) {
 	}
 	// borrow function: returns *ValueReader obtained from the pool / fresh
 	isBorrowResult := func(v *RX) *ssa.Function {
-		if v != nil && v.Call != nil && v.Idx == -1 {
-			if callee := v.Call.Call.StaticCallee(); callee != nil && w.InLib(callee) && callee.Signature.Results().Len() == 1 && structOfType(callee.Signature.Results().At(0).Type()) == st {
+		if v != nil && v.Call != nil {
+			ri := v.Idx
+			if ri < 0 {
+				ri = 0
+			}
+			if callee := v.Call.Call.StaticCallee(); callee != nil && w.InLib(callee) && ri < callee.Signature.Results().Len() && (v.Idx >= 0 || callee.Signature.Results().Len() == 1) && structOfType(callee.Signature.Results().At(ri).Type()) == st {
 				return callee
 			}
 		}
